@@ -132,12 +132,23 @@ def _gen_op(g, kind, cols, stats):
     elif kind == "rename_columns":
         names = g.sample(other, g.randint(1, len(other))) if other else []
         mapping = {c: c + "_new" for c in names}
+        if len(names) >= 2 and g.chance(0.5):
+            # the mapping is applied all at once: a swap, a cycle or a chain of existing names is a permutation of headers
+            how = g.pick(["swap", "cycle", "chain"])
+            if how == "chain":
+                mapping = {names[i]: (names[i + 1] if i + 1 < len(names) else names[i] + "_new") for i in range(len(names))}
+            else:
+                k_ = 2 if how == "swap" else len(names)
+                mapping = {names[i]: names[(i + 1) % k_] for i in range(k_)}
+            stats.append("rename_permutes_existing_names")
         ign = g.chance(0.5)
         if ign and g.chance(0.5) or not names:
             mapping["ghost"] = "ghost_new"
             ign = True
         p = {"column_mapping": mapping, "ignore_missing": ign}
         new_cols = [mapping.get(c, c) for c in cols]
+        if "rename_permutes_existing_names" in stats[-1:]:
+            new_cols = None      # the names now hold other kinds of values: stop chaining
     elif kind == "reorder_columns":
         order = g.sample(cols, g.randint(1, len(cols)))
         ign = g.chance(0.5)
